@@ -118,6 +118,13 @@ def make_interp():
         consts[k] = F(Lin({}, 1))
         consts[k.replace("::ONE", "::ZERO")] = F(Lin({}, 0))
     import rustlib
+    # constants re-exported from miden-crypto's Rpo256 (not part of the dumped crates)
+    rng = Struct()
+    rng[0], rng[1] = I(4, "usize"), I(8, "usize")
+    for pref in ("miden_core::chiplets::hasher::Hasher::", "Hasher::", "miden_crypto::hash::rpo::Rpo256::"):
+        consts[pref + "DIGEST_RANGE"] = rng
+        consts[pref + "STATE_WIDTH"] = I(12, "usize")
+        consts[pref + "NUM_ROUNDS"] = I(7, "usize")
     return mirsym.Interp(fns, natives() + opsum.EXTRA_NATIVES + pm.NATIVES + rustlib.NATIVES, consts, max_paths=64)
 
 
